@@ -1,1 +1,299 @@
-import Model.Template
+import Model.Time
+import Mathlib.Tactic
+/-! Helper lemmas about the calendar model. -/
+namespace Time
+
+theorem leapN_le (y : Nat) : leapN y ≤ 1 := by unfold leapN; split <;> omega
+
+theorem leapN_cases (y : Nat) : leapN y = 0 ∨ leapN y = 1 := by unfold leapN; split <;> simp
+
+theorem dby_succ (y : Nat) (h : 1 ≤ y) : dby (y + 1) = dby y + yearLen y := by
+  unfold dby yearLen leapN isLeap
+  obtain ⟨k, rfl⟩ : ∃ k, y = k + 1 := ⟨y - 1, by omega⟩
+  simp only [Nat.add_sub_cancel]
+  by_cases h4 : (k + 1) % 4 = 0 <;> by_cases h100 : (k + 1) % 100 = 0 <;>
+    by_cases h400 : (k + 1) % 400 = 0 <;> simp [h4, h100, h400] <;> omega
+
+theorem dby_lower (y : Nat) : 365 * (y - 1) ≤ dby y := by
+  unfold dby; omega
+
+theorem dby_mono {a b : Nat} (ha : 1 ≤ a) (hab : a ≤ b) : dby a ≤ dby b := by
+  induction b, hab using Nat.le_induction with
+  | base => exact Nat.le_refl _
+  | succ b hb ih => rw [dby_succ b (by omega)]; omega
+
+theorem dby_strict {a b : Nat} (ha : 1 ≤ a) (hab : a < b) : dby a < dby b := by
+  have := dby_mono (a := a + 1) (b := b) (by omega) hab
+  rw [dby_succ a ha] at this
+  unfold yearLen at this; omega
+
+theorem findGreatest_spec (p : Nat → Bool) (n : Nat) :
+    (∀ k, k ≤ n → p k = true → k ≤ findGreatest p n) ∧
+    (findGreatest p n ≤ n) ∧ (findGreatest p n ≠ 0 → p (findGreatest p n) = true) := by
+  induction n with
+  | zero => simp [findGreatest]
+  | succ n ih =>
+    unfold findGreatest
+    split
+    · refine ⟨fun k hk _ => hk, Nat.le_refl _, fun _ => ‹_›⟩
+    · obtain ⟨h1, h2, h3⟩ := ih
+      refine ⟨fun k hk hp => ?_, by omega, h3⟩
+      rcases Nat.lt_or_ge k (n + 1) with hlt | hge
+      · exact h1 k (by omega) hp
+      · have : k = n + 1 := by omega
+        subst this; simp_all
+
+theorem yearOf_eq (n y : Nat) (hy : 1 ≤ y) (h1 : dby y ≤ n) (h2 : n < dby (y + 1)) :
+    yearOf n = y := by
+  unfold yearOf
+  obtain ⟨s1, s2, s3⟩ := findGreatest_spec (fun y => decide (dby y ≤ n)) (n / 365 + 1)
+  have hb : y ≤ n / 365 + 1 := by
+    have := dby_lower y
+    have : 365 * (y - 1) ≤ n := by omega
+    have : y - 1 ≤ n / 365 := by rw [Nat.le_div_iff_mul_le (by omega)]; omega
+    omega
+  have hge := s1 y hb (by simpa using h1)
+  set z := findGreatest (fun y => decide (dby y ≤ n)) (n / 365 + 1) with hz
+  rcases Nat.lt_or_ge y z with hlt | hle
+  · exfalso
+    have hz0 : z ≠ 0 := by omega
+    have hpz := s3 hz0
+    simp only [decide_eq_true_eq] at hpz
+    have := dby_mono (a := y + 1) (b := z) (by omega) hlt
+    omega
+  · omega
+
+theorem dbmL_succ : ∀ l, l ≤ 1 → ∀ m, m ≤ 12 → 1 ≤ m → dbmL l (m + 1) = dbmL l m + dimL l m := by
+  decide
+
+theorem dbmL_mono : ∀ l, l ≤ 1 → ∀ m, m ≤ 12 → ∀ m', m' ≤ 12 → 1 ≤ m → m < m' →
+    dbmL l m + dimL l m ≤ dbmL l m' := by
+  decide
+
+theorem dbmL_total (l : Nat) (hl : l ≤ 1) (m : Nat) (h1 : 1 ≤ m) (h2 : m ≤ 12) :
+    dbmL l m + dimL l m ≤ 365 + l := by
+  rcases Nat.lt_or_ge m 12 with h | h
+  · have := dbmL_mono l hl m h2 12 (by omega) h1 h
+    have h12 : dbmL l 12 = 334 + l := rfl
+    have : dimL l 12 = 31 := rfl
+    have := dbmL_succ l hl 12 (by omega) (by omega)
+    have : dbmL l 13 = 365 + l := rfl
+    omega
+  · have : m = 12 := by omega
+    subst this
+    have : dbmL l 12 = 334 + l := rfl
+    have : dimL l 12 = 31 := rfl
+    omega
+
+theorem monthOfL_spec' : ∀ l, l < 2 → ∀ r, r < 365 + l →
+    1 ≤ monthOfL l r ∧ monthOfL l r ≤ 12 ∧ dbmL l (monthOfL l r) ≤ r ∧
+      r < dbmL l (monthOfL l r) + dimL l (monthOfL l r) := by
+  decide +kernel
+
+theorem monthOfL_spec (l r : Nat) (hl : l ≤ 1) (hr : r < 365 + l) :
+    1 ≤ monthOfL l r ∧ monthOfL l r ≤ 12 ∧ dbmL l (monthOfL l r) ≤ r ∧
+      r < dbmL l (monthOfL l r) + dimL l (monthOfL l r) := monthOfL_spec' l (by omega) r hr
+
+theorem monthOfL_eq (l : Nat) (hl : l ≤ 1) (m d : Nat) (h1 : 1 ≤ m) (h2 : m ≤ 12) (hd1 : 1 ≤ d)
+    (hd2 : d ≤ dimL l m) : monthOfL l (dbmL l m + (d - 1)) = m := by
+  have htot := dbmL_total l hl m h1 h2
+  obtain ⟨s1, s2, s3, s4⟩ := monthOfL_spec l (dbmL l m + (d - 1)) hl (by omega)
+  set m' := monthOfL l (dbmL l m + (d - 1)) with hm'
+  rcases Nat.lt_trichotomy m' m with h | h | h
+  · have := dbmL_mono l hl m' s2 m h2 s1 h; omega
+  · exact h
+  · have := dbmL_mono l hl m h2 m' s2 h1 h; omega
+
+/-- a calendar date accepted by `datetime` -/
+def ValidDate (y m d : Nat) : Prop :=
+  1 ≤ y ∧ y ≤ 9999 ∧ 1 ≤ m ∧ m ≤ 12 ∧ 1 ≤ d ∧ d ≤ dim y m
+
+theorem valid_iff (t : DateTime) :
+    Valid t ↔ ValidDate t.y t.mo t.d ∧ t.h < 24 ∧ t.mi < 60 ∧ t.s < 60 ∧ t.us < 1000000 := by
+  unfold Valid valid ValidDate
+  simp only [Bool.and_eq_true, decide_eq_true_eq]
+  tauto
+
+theorem toDays_bounds (y m d : Nat) (h : ValidDate y m d) :
+    dby y ≤ toDays y m d ∧ toDays y m d < dby (y + 1) := by
+  obtain ⟨hy1, _, hm1, hm2, hd1, hd2⟩ := h
+  unfold toDays dbm
+  unfold dim at hd2
+  have := dbmL_total (leapN y) (leapN_le y) m hm1 hm2
+  rw [dby_succ y hy1]; unfold yearLen
+  omega
+
+theorem ofDays_toDays (y m d : Nat) (h : ValidDate y m d) : ofDays (toDays y m d) = (y, m, d) := by
+  obtain ⟨hb1, hb2⟩ := toDays_bounds y m d h
+  obtain ⟨hy1, _, hm1, hm2, hd1, hd2⟩ := h
+  unfold ofDays
+  simp only [yearOf_eq _ y hy1 hb1 hb2]
+  have hr : toDays y m d - dby y = dbmL (leapN y) m + (d - 1) := by unfold toDays dbm; omega
+  rw [hr, monthOfL_eq (leapN y) (leapN_le y) m d hm1 hm2 hd1 hd2]
+  unfold dbm
+  have : dbmL (leapN y) m + (d - 1) - dbmL (leapN y) m + 1 = d := by omega
+  rw [this]
+
+theorem toDays_lt_max (y m d : Nat) (h : ValidDate y m d) : toDays y m d < dby 10000 := by
+  have := (toDays_bounds y m d h).2
+  have := dby_mono (a := y + 1) (b := 10000) (by omega) (by have := h.2.1; omega)
+  omega
+
+/-- time of day in µs -/
+def tod (t : DateTime) : Nat := (t.h * 3600 + t.mi * 60 + t.s) * 1000000 + t.us
+
+theorem tod_lt (t : DateTime) (h : Valid t) : tod t < usPerDay := by
+  rw [valid_iff] at h
+  unfold tod usPerDay; omega
+
+theorem toMicrosN_eq (t : DateTime) : toMicrosN t = toDays t.y t.mo t.d * usPerDay + tod t := rfl
+
+theorem tod_decomp0 (h mi s : Nat) (hmi : mi < 60) (hs : s < 60) :
+    (h * 3600 + mi * 60 + s) / 3600 = h ∧
+    (h * 3600 + mi * 60 + s) % 3600 / 60 = mi ∧
+    (h * 3600 + mi * 60 + s) % 60 = s := by
+  refine ⟨by omega, by omega, by omega⟩
+
+theorem tod_decomp (h mi s us : Nat) (hmi : mi < 60) (hs : s < 60) (hus : us < 1000000) :
+    ((h * 3600 + mi * 60 + s) * 1000000 + us) / 1000000 / 3600 = h ∧
+    ((h * 3600 + mi * 60 + s) * 1000000 + us) / 1000000 % 3600 / 60 = mi ∧
+    ((h * 3600 + mi * 60 + s) * 1000000 + us) / 1000000 % 60 = s ∧
+    ((h * 3600 + mi * 60 + s) * 1000000 + us) % 1000000 = us := by
+  have e1 : ((h * 3600 + mi * 60 + s) * 1000000 + us) / 1000000 = h * 3600 + mi * 60 + s := by
+    omega
+  have e2 : ((h * 3600 + mi * 60 + s) * 1000000 + us) % 1000000 = us := by omega
+  rw [e1, e2]
+  exact ⟨(tod_decomp0 h mi s hmi hs).1, (tod_decomp0 h mi s hmi hs).2.1,
+    (tod_decomp0 h mi s hmi hs).2.2, rfl⟩
+
+theorem ofMicrosN_toMicrosN (t : DateTime) (h : Valid t) : ofMicrosN (toMicrosN t) = t := by
+  have htod := tod_lt t h
+  have hv := (valid_iff t).1 h
+  rw [toMicrosN_eq]
+  unfold ofMicrosN
+  have h1 : (toDays t.y t.mo t.d * usPerDay + tod t) / usPerDay = toDays t.y t.mo t.d := by
+    rw [Nat.mul_comm, Nat.mul_add_div (by unfold usPerDay; omega), Nat.div_eq_of_lt htod]; rfl
+  have h2 : (toDays t.y t.mo t.d * usPerDay + tod t) % usPerDay = tod t := by
+    rw [Nat.mul_comm, Nat.mul_add_mod, Nat.mod_eq_of_lt htod]
+  simp only [h1, h2, ofDays_toDays _ _ _ hv.1]
+  obtain ⟨_, hh, hmi, hs, hus⟩ := hv
+  obtain ⟨d1, d2, d3, d4⟩ := tod_decomp t.h t.mi t.s t.us hmi hs hus
+  unfold tod
+  rw [d1, d2, d3, d4]
+
+theorem toMicrosN_le_max (t : DateTime) (h : Valid t) : toMicrosN t ≤ maxMicros := by
+  have htod := tod_lt t h
+  have hd := toDays_lt_max _ _ _ ((valid_iff t).1 h).1
+  rw [toMicrosN_eq]; unfold maxMicros
+  have : (toDays t.y t.mo t.d + 1) * usPerDay ≤ dby 10000 * usPerDay := Nat.mul_le_mul_right _ hd
+  have : (toDays t.y t.mo t.d + 1) * usPerDay = toDays t.y t.mo t.d * usPerDay + usPerDay := by ring
+  omega
+
+theorem ofMicros_toMicros (t : DateTime) (h : Valid t) : ofMicros (toMicros t) = some t := by
+  unfold ofMicros toMicros
+  have := toMicrosN_le_max t h
+  rw [if_pos ⟨by omega, by exact_mod_cast this⟩]
+  simp [ofMicrosN_toMicrosN t h]
+
+theorem toMicros_injective (a b : DateTime) (ha : Valid a) (hb : Valid b)
+    (h : toMicros a = toMicros b) : a = b := by
+  have h1 := ofMicros_toMicros a ha
+  have h2 := ofMicros_toMicros b hb
+  rw [h] at h1; rw [h1] at h2; exact Option.some.inj h2
+
+/-! ### day of year -/
+
+theorem doyOf_pos (y m d : Nat) (h : ValidDate y m d) : 1 ≤ doyOf y m d := by
+  unfold doyOf; have := h.2.2.2.2.1; omega
+
+theorem doyOf_le (y m d : Nat) (h : ValidDate y m d) : doyOf y m d ≤ 366 := by
+  obtain ⟨_, _, hm1, hm2, _, hd2⟩ := h
+  unfold doyOf dbm; unfold dim at hd2
+  have := dbmL_total (leapN y) (leapN_le y) m hm1 hm2
+  have := leapN_le y
+  omega
+
+theorem ofYearDoy_doyOf (y m d : Nat) (h : ValidDate y m d) :
+    ofYearDoy y (doyOf y m d) = some (y, m, d) := by
+  have hlt := toDays_lt_max y m d h
+  have hd1 := h.2.2.2.2.1
+  unfold ofYearDoy
+  have e : ((dby y : Int) + (doyOf y m d : Int) - 1) = ((toDays y m d : Nat) : Int) := by
+    unfold doyOf toDays; push_cast; omega
+  simp only [e]
+  rw [if_pos ⟨by omega, by exact_mod_cast hlt⟩]
+  simp [ofDays_toDays y m d h]
+
+/-! ### order -/
+
+/-- lexicographic order on the 7-tuple (what CPython's `datetime.__lt__` compares) -/
+def lexLt (a b : DateTime) : Prop :=
+  a.y < b.y ∨ (a.y = b.y ∧ (a.mo < b.mo ∨ (a.mo = b.mo ∧ (a.d < b.d ∨ (a.d = b.d ∧
+    (a.h < b.h ∨ (a.h = b.h ∧ (a.mi < b.mi ∨ (a.mi = b.mi ∧ (a.s < b.s ∨ (a.s = b.s ∧
+      a.us < b.us)))))))))))
+
+theorem toDays_strict (y m d y' m' d' : Nat) (h : ValidDate y m d) (h' : ValidDate y' m' d')
+    (hlt : y < y' ∨ (y = y' ∧ (m < m' ∨ (m = m' ∧ d < d')))) : toDays y m d < toDays y' m' d' := by
+  rcases hlt with hy | ⟨rfl, hm | ⟨rfl, hd⟩⟩
+  · have := (toDays_bounds y m d h).2
+    have := (toDays_bounds y' m' d' h').1
+    have := dby_mono (a := y + 1) (b := y') (by omega) hy
+    omega
+  · obtain ⟨_, _, hm1, hm2, hd1, hd2⟩ := h
+    obtain ⟨_, _, hm1', hm2', hd1', hd2'⟩ := h'
+    unfold toDays dbm; unfold dim at hd2
+    have := dbmL_mono (leapN y) (leapN_le y) m hm2 m' hm2' hm1 hm
+    omega
+  · unfold toDays; have := h.2.2.2.2.1; omega
+
+theorem toMicros_strictMono (a b : DateTime) (ha : Valid a) (hb : Valid b) (h : lexLt a b) :
+    toMicros a < toMicros b := by
+  unfold toMicros
+  have hva := (valid_iff a).1 ha
+  have hvb := (valid_iff b).1 hb
+  have hta := tod_lt a ha
+  rw [toMicrosN_eq, toMicrosN_eq]
+  have key : toDays a.y a.mo a.d < toDays b.y b.mo b.d ∨
+      (toDays a.y a.mo a.d = toDays b.y b.mo b.d ∧ tod a < tod b) := by
+    unfold lexLt at h
+    rcases h with h | ⟨h1, h | ⟨h2, h | ⟨h3, h⟩⟩⟩
+    · exact Or.inl (toDays_strict _ _ _ _ _ _ hva.1 hvb.1 (Or.inl h))
+    · exact Or.inl (toDays_strict _ _ _ _ _ _ hva.1 hvb.1 (Or.inr ⟨h1, Or.inl h⟩))
+    · exact Or.inl (toDays_strict _ _ _ _ _ _ hva.1 hvb.1 (Or.inr ⟨h1, Or.inr ⟨h2, h⟩⟩))
+    · refine Or.inr ⟨by rw [h1, h2, h3], ?_⟩
+      obtain ⟨_, _, _, _, _⟩ := hva
+      obtain ⟨_, _, _, _, _⟩ := hvb
+      unfold tod
+      rcases h with h | ⟨h4, h | ⟨h5, h | ⟨h6, h⟩⟩⟩ <;> omega
+  have : ((toDays a.y a.mo a.d * usPerDay + tod a : Nat) : Int)
+      < ((toDays b.y b.mo b.d * usPerDay + tod b : Nat) : Int) := by
+    apply Int.ofNat_lt.mpr
+    rcases key with k | ⟨k1, k2⟩
+    · have : (toDays a.y a.mo a.d + 1) * usPerDay ≤ toDays b.y b.mo b.d * usPerDay :=
+        Nat.mul_le_mul_right _ k
+      have : (toDays a.y a.mo a.d + 1) * usPerDay = toDays a.y a.mo a.d * usPerDay + usPerDay := by
+        ring
+      omega
+    · rw [k1]; omega
+  exact this
+
+theorem lex_trichotomy (a b : DateTime) : lexLt a b ∨ a = b ∨ lexLt b a := by
+  cases a; cases b
+  unfold lexLt
+  simp only [DateTime.mk.injEq]
+  omega
+
+/-- the model's comparison (on `toMicros`) is the lexicographic comparison of the tuples -/
+theorem lt_iff_lex (a b : DateTime) (ha : Valid a) (hb : Valid b) :
+    lt a b = true ↔ lexLt a b := by
+  unfold lt
+  simp only [decide_eq_true_eq]
+  constructor
+  · intro h
+    rcases lex_trichotomy a b with h1 | rfl | h1
+    · exact h1
+    · omega
+    · have := toMicros_strictMono b a hb ha h1; omega
+  · exact toMicros_strictMono a b ha hb
+
+end Time
